@@ -164,6 +164,25 @@ func pathClass(d *simfs.Disk) string {
 	return "none"
 }
 
+// faultPhase tells whether the injected fault hit a read-side operation before
+// the call had changed anything outside the object store ("pre": the call knew
+// of the failure before its first mutation and still went on to mutate), or
+// landed on or after a mutation ("mid": the known lack of failure atomicity).
+func faultPhase(d *simfs.Disk) string {
+	for _, op := range d.Log {
+		if op.Injected {
+			if op.Mutating {
+				return "mid"
+			}
+			return "pre"
+		}
+		if op.Mutating && op.Err == "" && !strings.HasPrefix(op.Path, "/w/.git/objects") {
+			return "mid"
+		}
+	}
+	return "mid"
+}
+
 func run(t *testing.T, p *Plan, observe func(step int, user bool, d *simfs.Disk)) (out core.Outcome) {
 	hooks.Deterministic(true)
 	b := porc.GetBase(p.RepoSeed, p.Repack, false)
@@ -220,6 +239,9 @@ func run(t *testing.T, p *Plan, observe func(step int, user bool, d *simfs.Disk)
 			// one signature per (operation, changed components): WHERE the
 			// fault landed is in the message and the probes, not the signature
 			cause = "fault"
+			if faultPhase(d) == "pre" {
+				cause = "fault-before-first-mutation:" + string(p.Fault.Class) + "@" + where
+			}
 			out.Probe("op-failed-after-fault")
 			out.Probe(fmt.Sprintf("fault-landed:%s@%s", p.Fault.Class, where))
 		} else {
